@@ -6,80 +6,20 @@ package safesplit
 
 import (
 	"reflect"
-	"strings"
 	"testing"
 
 	"pgregory.net/rapid"
 	"verifstat"
+	"verifstat/pcgen"
 )
-
-var verifValAlphabet = []rune{' ', ' ', '\t', '\\', '-', '-', 'a', 'b', 'L', '/', '.', '=', ',', '$', '"', '\'', 'é', '世', '0'}
-
-// VerifFlag draws one flag: value does not start with '-' (would read as the next flag), does not end
-// in a blank (trailing blanks are not representable) nor in a backslash (it would escape the separator).
-func VerifFlag(t *rapid.T) string {
-	letter := rapid.SampledFrom([]rune("ILlDWfgOmpx")).Draw(t, "letter")
-	n := rapid.IntRange(0, 8).Draw(t, "vlen")
-	rs := make([]rune, 0, n)
-	for i := 0; i < n; i++ {
-		rs = append(rs, rapid.SampledFrom(verifValAlphabet).Draw(t, "vr"))
-	}
-	for len(rs) > 0 && rs[0] == '-' {
-		rs = rs[1:]
-	}
-	for len(rs) > 0 && (rs[len(rs)-1] == ' ' || rs[len(rs)-1] == '\t' || rs[len(rs)-1] == '\\') {
-		rs = rs[:len(rs)-1]
-	}
-	return "-" + string(letter) + string(rs)
-}
-
-func verifBlanks(t *rapid.T, min int) string {
-	n := rapid.IntRange(min, 3).Draw(t, "nb")
-	var b strings.Builder
-	for i := 0; i < n; i++ {
-		b.WriteString(rapid.SampledFrom([]string{" ", " ", "\t"}).Draw(t, "b"))
-	}
-	return b.String()
-}
-
-// VerifRenderFlags renders flags as one pkg-config style line.
-func VerifRenderFlags(t *rapid.T, flags []string) string {
-	var b strings.Builder
-	b.WriteString(verifBlanks(t, 0))
-	for i, f := range flags {
-		if i > 0 {
-			b.WriteString(verifBlanks(t, 1))
-		}
-		b.WriteString(f[:2])
-		val := f[2:]
-		if val != "" && val[0] != ' ' && val[0] != '\t' && rapid.IntRange(0, 3).Draw(t, "gap") == 0 {
-			b.WriteString(verifBlanks(t, 1)) // "-I /path": blanks after the flag letter are ignored
-		}
-		for _, r := range val {
-			if r == ' ' || r == '\t' {
-				b.WriteByte('\\')
-			}
-			b.WriteRune(r)
-		}
-	}
-	b.WriteString(verifBlanks(t, 0))
-	return b.String()
-}
 
 func TestVerifC17PkgConfigRoundTrip(t *testing.T) {
 	c := verifstat.For("C17")
 	defer c.Flush()
 	rapid.Check(t, func(t *rapid.T) {
-		n := rapid.IntRange(0, 6).Draw(t, "nflags")
-		flags := make([]string, n)
-		nt := false
-		for i := range flags {
-			flags[i] = VerifFlag(t)
-			if strings.ContainsAny(flags[i][2:], " \t\\") {
-				nt = true
-			}
-		}
-		line := VerifRenderFlags(t, flags)
+		flags := pcgen.Flags(t, 6)
+		nt := pcgen.Nontrivial(flags)
+		line := pcgen.Render(t, flags, false)
 		c.Case(verifstat.Hash("pkgconfig", line), nt, "pkgconfig_roundtrip")
 		c.Sample(map[string]any{"kind": "pkgconfig", "line": line, "flags": flags})
 		got := SplitPkgConfigFlags(line)
